@@ -251,4 +251,37 @@ def kdeAt (T : Fn) (d : List (Rat × Rat)) (xMin bw wsum x : Rat) : Rat :=
     reciprocal of the exact integral of its own interpolation (C08) -/
 def kdeNormalise (o : Interp.Obj) (norm : Rat) : Interp.Obj := o.multiply (1 / norm)
 
+/-! ## Mirrors of the repairs proposed by the second audit (fixprop-C07-4 … C07-7): the forms the code takes once they are applied -/
+
+/-- `Inv_Erf` with the symmetric window (fixprop-C07-5): `|p + 1| < 1e-16` returns -10 like `|p - 1| < 1e-16` returns 10 -/
+def invErfSym (T : Fn) (p : Rat) : Except Err Rat :=
+  if rabs (p - 1) < 1e-16 then .ok 10
+  else if rabs (p + 1) < 1e-16 then .ok (-10)
+  else if rabs p ≥ 1 then .error .diag
+  else .ok (T.invErf p)
+
+/-- mixture weights must lie in [0,1] (fixprop-C07-6) -/
+def chiBarWeightsOk (w : List Rat) : Bool := w.all (fun v => decide (0 ≤ v ∧ v ≤ 1))
+def pdfChiBarE (T : Fn) (x : Rat) (w : List Rat) : Except Err Rat := if chiBarWeightsOk w then .ok (pdfChiBar T x w) else .error .diag
+def cdfChiBarE (T : Fn) (x : Rat) (w : List Rat) : Except Err Rat := if chiBarWeightsOk w then .ok (cdfChiBar T x w) else .error .diag
+
+/-- Maxwell–Boltzmann in `t = x/a` (fixprop-C07-7) -/
+def pdfMBt (T : Fn) (x a : Rat) : Except Err Rat :=
+  if a ≤ 0 then .error .diag
+  else if x < 0 then .ok 0
+  else
+    let t := x / a
+    .ok (T.sqrt (2 / T.pi) * t * t / a * T.exp (-t * t / 2))
+
+def cdfMBt (T : Fn) (x a : Rat) : Except Err Rat :=
+  if a ≤ 0 then .error .diag
+  else if x < 0 then .ok 0
+  else
+    let t := x / a
+    if t < 1 / 10 then .ok (mbSeries (T.sqrt (2 / T.pi)) t)
+    else .ok (T.erf (t / T.sqrt 2) - T.sqrt (2 / T.pi) * t * T.exp (-t * t / 2))
+
+/-- the automatic bandwidth with its fallback to one table spacing for a sample without spread (fixprop-C07-4) -/
+def kdeAutoBandwidth (ruleOfThumb xMin xMax : Rat) : Rat := if ¬ (ruleOfThumb > 0) then (xMax - xMin) / 149 else ruleOfThumb
+
 end Lp.C07
